@@ -113,6 +113,7 @@ func check(c Case) error {
 // --- program construction ---------------------------------------------------------------
 
 var reArm = regexp.MustCompile(`(?m)^\s*\| K[0-9]+[a-z].*->.*\n`)
+var reImport = regexp.MustCompile(`(?m)^import [a-z]+\n`)
 var reAnnot = regexp.MustCompile(`\((p[0-9]+):[^()]*\)`)
 
 const pkgInfos = `
@@ -236,6 +237,29 @@ func genCase(rt *rapid.T) (Case, []string) {
 	case 1:
 		src = strings.Replace(src, "let main () =\n", "let main () =\n  frt.Println unknownName\n", 1)
 		labels = append(labels, "unknown identifier")
+	}
+	// the same text in less tidy shapes (whatever fc makes of them, it makes the same every time): an import
+	// written twice, imports the program does not use, a declaration repeated under another name
+	switch rapid.IntRange(0, 7).Draw(rt, "untidy") {
+	case 0:
+		if ms := reImport.FindAllString(src, -1); len(ms) > 0 {
+			dup := ms[rapid.IntRange(0, len(ms)-1).Draw(rt, "dupImport")]
+			last := strings.LastIndex(src, ms[len(ms)-1]) + len(ms[len(ms)-1])
+			src = src[:last] + dup + src[last:]
+			labels = append(labels, "an import written twice")
+		}
+	case 1:
+		if ms := reImport.FindAllString(src, -1); len(ms) > 0 {
+			last := strings.LastIndex(src, ms[len(ms)-1]) + len(ms[len(ms)-1])
+			extra := ""
+			for _, pk := range []string{"dict", "buf", "strings", "slice", "frt", "sys"} {
+				if rapid.Bool().Draw(rt, "extraImport:"+pk) {
+					extra += "import " + pk + "\n"
+				}
+			}
+			src = src[:last] + extra + src[last:]
+			labels = append(labels, "extra imports (possibly repeated)")
+		}
 	}
 	if g.Labels["type: two records with the same field names"] {
 		labels = append(labels, "two records with the same field names")
